@@ -17,6 +17,7 @@ EXPLANATION = (
     "deadline on every path and Interval::reset re-arms at now + period. "
     '(R5 also: TimerSlot::add stores every entry unconditionally - one entry per registered sleep.) '
     '(R9) no deadline or clock read-out in a unit coarser than its resolution anywhere in the timer modules. '
+    '(R1 also: Driver::next answers with the search over the live slots on every call - no cached or suppressed answer.) '
     "Decides these necessary conditions only; not firing instants over programs.")
 ASSUMPTIONS = ["VecDeque::binary_search_by/insert keep the pending list sorted by time", "wakers wake their tasks (tokio)"]
 
@@ -54,7 +55,8 @@ def r1_next_wakeup(ctx, rule='C05.R1'):
         for _, t in ret_trees(dn):
             t = peel(t)
             alts += [peel(y) for y in (t[1] if t[0] == 'phi' else [t])]
-        ctx.check(bool(alts) and all(a[0] == 'call' and a[1] == fnext.key for a in alts), 'driver-next-is-the-search', 'Driver::next answers with the search over the live slots, unconditionally',
+        # (every answer is computed from the search: the call itself, or the call behind filter/map adaptors — never a path without it)
+        ctx.check(bool(alts) and all(any(x[0] == 'call' and x[1] == fnext.key for x in walk(a)) for a in alts), 'driver-next-is-the-search', 'Driver::next answers with the search over the live slots, unconditionally',
                   dn.where(), [show(a)[:80] for a in alts][:3])
     # (a) can an emptied slot stay in the pending list?
     removers = []
